@@ -41,9 +41,14 @@ CHECKS = {
                 text='Bounded symbolic model checking: every schedule of 3 (thorough 4) evaluations with repetitions, by one or two evaluators sharing the model, yields for ALL integer inputs the '
                      'reference value for each cell; model constants, formula texts, defined names and key sets unchanged; no evaluation context survives and no evaluator container grows on repetition.',
                 note=XH_NOTE + ' The RSS/tracemalloc formulation of the memory clause is outside the technique; only the structural proxy is decided.'),
+    'C13': dict(engine='XH', technique='symbolic execution (CrossHair+z3) of ModelCompiler.extract + Evaluator on compiled models with symbolic inputs, symbolic focus subsets and symbolic later input changes',
+                text='Bounded symbolic model checking: on 5 compiled models (depth 0..4, diamond, ranges, two sheets, defined names) for every non-empty focus subset (thorough: all; quick: sparse on the '
+                     'largest model) and ALL integer inputs, every focused cell/name evaluates alike in the extracted and the original model and equals an independent reference, also after 1 (thorough 2) '
+                     'input changes applied to both; the extracted model contains the transitive closure; the original is unchanged.',
+                note=XH_NOTE),
 }
 NA = {
     'C12': 'persist/restore is ten lines around jsonpickle -> json (C encoder) -> gzip/file I/O; no repo-side kernel a solver can quantify over (symbolic values are realised or pickled as proxy objects at the codec boundary)',
 }
-for _p in ['C03', 'C07', 'C08', 'C10', 'C11', 'C13', 'C14', 'C15', 'C16', 'C18', 'C19', 'C20']:
+for _p in ['C03', 'C07', 'C08', 'C10', 'C11', 'C14', 'C15', 'C16', 'C18', 'C19', 'C20']:
     NA.setdefault(_p, 'check not built yet in this revision (planned: see DESIGN.md §4)')
